@@ -16,6 +16,16 @@ CHECKS = {
         "Trusts CPython list semantics as the model; items assigned are fresh objects; 'following item' rule as in DESIGN C16.",
         "DESIGN.md §3 C16",
     ),
+    "C02": (
+        "exploration",
+        "reference-model monitor: every generated canvas expression tree is evaluated on the real canvas classes and on an independent cell-grid model; cells, size, cursor/pop-up, operand fingerprints, content_delta application and finalized-mutator refusal compared per tree",
+        "Random expression trees over TextCanvas/SolidCanvas leaves and all composition operators (combine, join with pad/trim, overlay, pad/trim four sides, "
+        "trim, trim_end, attribute maps, re-wrap, in-place or wrapped, finalize anywhere) in three encodings; each tree's flattened content() is compared "
+        "cell-for-cell with the grid model, every canvas created on the way is fingerprinted and re-verified after all later operations, content_delta "
+        "against a sibling tree sharing leaf objects is applied to the old rows and compared with the new content. Held-on-observed over ~10^4 (quick) / ~10^6 (thorough) trees.",
+        "Trusts vmon/models/grid.py (cell semantics: cut wide char -> space with its attribute; zero-width chars ride on the previous cell). Leaf attribute runs are character-aligned; overlay tops are CompositeCanvas.",
+        "DESIGN.md §3 C02",
+    ),
 }
 
 NA_REASON = "check not built yet in this round (see DESIGN.md §6 build order); no claim is made"
